@@ -127,7 +127,9 @@ def scenario(sid, case, gate=None, timeout="5s", gap_ms=0, pad=False, taskhook=N
             # hooks of one (moment, weight) are started together: while the gated one is held its companion runs
             together = []
             hs = {h["id"]: h for h in case["hooks"]}
-            if gate == "h1" and "h2" in hs and (hs["h1"]["tm"], hs["h1"]["tw"]) == (hs["h2"]["tm"], hs["h2"]["tw"]) \
+            # (only where the model lets the transition reach that moment: nothing fails before it)
+            if gate == "h1" and "h2" in hs and not case["bodyfails"] and not any(h["fails"] for h in case["hooks"]) \
+                    and (hs["h1"]["tm"], hs["h1"]["tw"]) == (hs["h2"]["tm"], hs["h2"]["tw"]) \
                     and ev == {"START_ACTIVITY": "START_ACTIVITY", "STOP_ACTIVITY": "STOP_ACTIVITY"}.get(hs["h1"]["tm"].split("_", 1)[1] if hs["h1"]["tm"].startswith(("before_", "after_")) else "", "START_ACTIVITY" if hs["h1"]["tm"] in ("leave_CONFIGURED", "enter_RUNNING") else "STOP_ACTIVITY"):
                 together = [{"do": "waithook", "hook": "h2", "timeout_ms": 3000}]
             steps += [{"do": "control", "env": "e1", "op": ev, "caller": "A%d" % i},
@@ -317,7 +319,13 @@ def run_family(ctx, pid):
     def between(c):
         h1, h2 = (next(h for h in c["hooks"] if h["id"] == i) for i in ("h1", "h2"))
         return h1["tm"] == h1["am"] == h2["tm"] and h1["tw"] < h1["aw"] < h2["tw"]
-    gated = [c for c in samemom if between(c)] + [c for c in samemom if not between(c)][:(10 if quick else 60)] + gated[:(25 if quick else 200)]
+    # ... and two calls declared at one (moment, weight) in a run in which nothing fails ("started together"): always replayed
+    def together(c):
+        h1, h2 = (next(h for h in c["hooks"] if h["id"] == i) for i in ("h1", "h2"))
+        return ((h1["tm"], h1["tw"]) == (h2["tm"], h2["tw"]) and (h1["tm"], h1["tw"]) != (h1["am"], h1["aw"])
+                and not c["bodyfails"] and not any(h["fails"] for h in c["hooks"]) and len(c["plan"]) == 2)
+    tog = [c for c in gated if together(c)][:(4 if quick else 16)]
+    gated = tog + [c for c in samemom if between(c)] + [c for c in samemom if not between(c)][:(10 if quick else 60)] + gated[:(25 if quick else 200)]
     scenarios = []
     sid = 0
     for c in plain:
